@@ -5,6 +5,7 @@ Template grammar (line based):
   //! unit: u02                      header lines (key: value); keys: unit, properties, assume, trusted, note
   ...verus text...                   copied verbatim (spec fns, lemmas, env stubs)
   //@const <file> NAME NAME ...      extract const items (one line, no //@end)
+  //@fields write|read NAME          (inside //@extract of a fn) R21: replace the fn by `spec fn NAME() -> Seq<&str>`: the field names it writes / reads, in order
   //@extract <file> :: <item path>   start of an extraction block for one item (fn/struct/enum/const/impl)
   //@strip mod mod ...               R4: extra module prefixes to strip
   //@cfg atom=true|false             R2: override of the production cfg table
@@ -385,7 +386,20 @@ class Unit:
         if any(d.kind == 'slice' for d in blk.dirs):
             kind = 'fn'  # a slice replaces the item (fn, macro_rules, ...) by the instantiated function
         contracted = False
-        if kind == 'fn':
+        fdir = next((d for d in blk.dirs if d.kind == 'fields'), None)
+        if fdir is not None:
+            # R21: the item is replaced by a spec function returning the ordered list of field names it writes / reads
+            fk, fname = fdir.arg.split()[:2]
+            names = X.field_sequence(item, fk, log, root=next((a[5:] for a in fdir.arg.split()[2:] if a.startswith('root=')), 'self'))
+            only = next((a[5:].split(',') for a in fdir.arg.split()[2:] if a.startswith('only=')), None)
+            if only is not None:
+                # `only=a,b,c`: the subsequence of the listed names (nested records and renamed temporaries of a long function are left out)
+                names = [(n, l) for (n, l) in names if n in only]
+                if len(names) < 2:
+                    raise Maintenance('%s:%d: R21: fewer than two of the listed names found' % (self.path, fdir.line))
+            out.raw('pub open spec fn %s() -> Seq<&\'static str> { seq![%s] }' % (fname, ', '.join('"%s"' % n for n, _ in names)), (blk.file, names[0][1]))
+            out.raw('', ('unit', blk.line))
+        elif kind == 'fn':
             item, contracted = self._splice_fn(blk, item, out, info, novac)
         else:
             for d in blk.dirs:
